@@ -160,6 +160,12 @@ def r17_1(chk):
             except (NotConstant, TypeError, ValueError) as e:
                 chk.unresolved("R17.1", k_inst, m.loc(fn), f"cannot propagate constants through the function: {e}")
                 continue
+            # exact-value conditions use '=', only values carrying a wildcard use LIKE
+            if other_name == "string condition":
+                exact = re.search(r"\bseqid\s*=\s*\?", sql) is not None
+                if not exact:
+                    chk.violation("R17.1", key(m, "_matching_conditions", f"{name}; exact-value operator"), m.loc(fn), f"a plain string value is matched with `{sql.split(' AND ')[0]}` instead of `seqid = ?`: LIKE is case-insensitive and treats '_' as a wildcard, so records with other identifiers are returned too")
+                    continue
             try:
                 tree = parse_condition(sql)
             except SqlSyntax as e:
@@ -430,7 +436,40 @@ def r17_4(chk):
     chk.floor("R17.4", 6, "2 gff offsets, 2 genbank properties, get_coordinates, db storage")
 
 
+def r17_5(chk):
+    chk.rule("R17.5", "the counter of made-up record names is threaded through every call of merged_gff_records: the updated counter it returns is stored where the next call takes its counter from, and is not reset inside the block loop -- otherwise ID-less rows of later blocks reuse earlier names and their spans are merged into the wrong records")
+    m = chk.repo.module(DB)
+    n = 0
+    for q, fn in m.all_functions():
+        calls = [st for st in walk_no_nested(fn) if isinstance(st, ast.Assign) and isinstance(st.value, ast.Call) and call_name(st.value) == "merged_gff_records"]
+        for st in calls:
+            n += 1
+            c = st.value
+            arg = c.args[1] if len(c.args) > 1 else next((kw.value for kw in c.keywords if kw.arg == "num_fake_ids"), None)
+            tg = st.targets[0]
+            out = tg.elts[1] if isinstance(tg, ast.Tuple) and len(tg.elts) == 2 else None
+            k = key(m, q, f"{norm(st)[:70]}")
+            if arg is None or out is None:
+                chk.violation("R17.5", k, m.loc(st), "the updated counter returned by merged_gff_records is discarded")
+                continue
+            same = norm(arg) == norm(out)
+            # not reset inside an inner loop that contains the call
+            reset_inside = False
+            for lp in walk_no_nested(fn):
+                if isinstance(lp, (ast.For, ast.While)) and any(st is x for b in lp.body for x in ast.walk(b)):
+                    for b in lp.body:
+                        for x in ast.walk(b):
+                            if isinstance(x, ast.Assign) and x is not st and norm(x.targets[0]) == norm(arg) and isinstance(x.value, ast.Constant):
+                                # a reset directly in the innermost loop around the call restarts the names per block
+                                inner = [l2 for l2 in ast.walk(lp) if isinstance(l2, (ast.For, ast.While)) and l2 is not lp and any(st is y for b2 in l2.body for y in ast.walk(b2))]
+                                if not inner:
+                                    reset_inside = True
+            chk.decide(same and not reset_inside, "R17.5", k, m.loc(st), f"counter `{norm(arg)}` fed back", f"the call takes its counter from `{norm(arg)}` but stores the updated one in `{norm(out)}`" + (" (and resets it inside the block loop)" if reset_inside else "") + ": rows without an ID in a later block are given names already used in an earlier one")
+    chk.floor("R17.5", 2, "GffAnnotationDb.__init__ and _db_from_gff")
+
+
 def run(chk):
+    r17_5(chk)
     r17_1(chk)
     r17_2(chk)
     r17_3(chk)
